@@ -8,12 +8,13 @@ VARIABLE n
 Ops == << "get", "get-filter", "get-xpath", "get-config", "get-config-filter", "get-config-defaults", "edit-config", "copy-config",
           "delete-config", "lock", "unlock", "validate", "commit", "commit-confirmed", "commit-persist", "discard", "rpc",
           "commit-persist-id", "commit-all", "commit-timeout" >>       \* every commit parameter alone and all together
-ArgKinds == << "ascii", "multibyte", "long", "attrs", "namespaces", "empty-elements", "comment-before-close", "cdata", "pi", "whitespace-only", "mixed", "percent" >>
+ArgKinds == << "ascii", "multibyte", "long", "attrs", "namespaces", "empty-elements", "comment-before-close", "cdata", "pi", "whitespace-only", "mixed", "percent", "prefixed-empty" >>
 Stores == << "running", "candidate", "startup" >>
 Scn(m) == LET k == 2 + Below(5, m, 1) IN
+  \* prev = "mismatch": the user requires `version`, the peer offers only the other one: no session, nothing framed at all
   \* prev: an earlier session on the SAME driver object, closed again, in which the peer offered only that version; the session
   \* under observation is then negotiated with a peer that offers only `version` - its framing follows its own two hellos
-  [id |-> m, version |-> IF Coin(m, 2) THEN "1.1" ELSE "1.0", prev |-> Pick(<< "none", "none", "1.0", "1.1" >>, m, 5), selfclose |-> Below(3, m, 3) = 0, header |-> Below(4, m, 4) # 0,
+  [id |-> m, version |-> IF Coin(m, 2) THEN "1.1" ELSE "1.0", prev |-> Pick(<< "none", "none", "1.0", "1.1", "mismatch" >>, m, 5), selfclose |-> Below(3, m, 3) = 0, header |-> Below(4, m, 4) # 0,
    ops |-> [j \in 1..k |-> [op |-> Pick(Ops, m, 10 + j), arg |-> Pick(ArgKinds, m, 30 + j),
                              store |-> Pick(Stores, m, 50 + j), store2 |-> Pick(Stores, m, 70 + j)]]]
 Init == n = 0
